@@ -3,6 +3,7 @@ from __future__ import annotations
 
 import hashlib
 import json
+import uuid as uuid_mod
 from typing import Any, Dict, List, Optional
 
 import pairsetup_env as pe
@@ -158,6 +159,12 @@ def boundary_plans(rng) -> List[Dict[str, Any]]:
     for sub in ("badsig", "wrongid", "malformed", "missing", "short", "noenc", "badkey"):
         P.append(new_plan(rng, [op_m1(rng, **c0), op_m3_honest(rng, "ok", **c0), op_m5(rng, "sess", sub, **c0),
                                 op_m5(rng, "sess", "valid", **c0)]))
+    # the identity that gets recorded must be the one SEALED in the M5: unauthenticated outer items naming somebody
+    # else (a man in the middle can add them), an identifier split over two TLV fragments
+    for sub in ("outer-id", "split-id"):
+        for conn in (0, 1):
+            P.append(new_plan(rng, [op_m1(rng, **c0), op_m3_honest(rng, "ok", **c0), op_m5(rng, "sess", sub, conn=conn)]))
+    P.append(new_plan(rng, [op_m1(rng, **c0), op_m3_deg(rng, 1, **c0), op_m5(rng, "s0", "outer-id", **c0)]))
     # M3 lacking a field (each A kind) right after a successful / failed M3 of the same exchange, on the same and
     # on a second connection, followed by M5 under each key a peer could try
     akinds = [lambda c: op_m3_honest(rng, "ok", conn=c), lambda c: op_m3_honest(rng, "wrong", conn=c),
@@ -296,7 +303,8 @@ def random_plan(rng) -> Dict[str, Any]:
             n_m3 += 1
         elif r < 0.86:
             ops.append(op_m5(rng, rng.choice(["sess", "sess", "good", "s0", "s0", "lastA", "random"]),
-                             rng.choice(["valid"] * 6 + ["badsig", "wrongid", "malformed", "missing", "short", "noenc", "badkey"])))
+                             rng.choice(["valid"] * 6 + ["badsig", "wrongid", "malformed", "missing", "short", "noenc", "badkey",
+                                                         "outer-id", "split-id"])))
             n_m5 += 1
         elif r < 0.90 and n_m5:
             ops.append(op_m5_replay(rng, rng.randrange(n_m5)))
@@ -370,6 +378,7 @@ def run_item(item) -> List[Dict[str, Any]]:
 def run_plan(plan: Dict[str, Any], env=None) -> Dict[str, Any]:
     """Concretise and run a plan; judge it with the C01 oracle.  Pure function of the plan (and of what ran
     before it in the same process, for worlds)."""
+    from cryptography.hazmat.primitives import serialization
     from cryptography.hazmat.primitives.asymmetric import ed25519
 
     code = plan["code"].encode()                                # the accessory's setup code (what the oracle uses)
@@ -404,6 +413,7 @@ def run_plan(plan: Dict[str, Any], env=None) -> Dict[str, Any]:
             salt, secret = bytes.fromhex(op["salt"]), bytes.fromhex(op["secret"])
             is_demo = False
             idents = []
+            sealed_identity = None   # (identifier, long-term key) inside the sealed sub-TLV of an M5 built here
             kind = op["op"]
             m5_key, m5_public = None, False
             if op["op"] == "unpair":
@@ -529,8 +539,22 @@ def run_plan(plan: Dict[str, Any], env=None) -> Dict[str, Any]:
                         d = pc.parse(sub)
                         sub = tlv8.encode([(pc.T_IDENTIFIER, ident), (pc.T_PUBLIC_KEY, ltpk[:31]),
                                            (pc.T_SIGNATURE, d[pc.T_SIGNATURE])])
+                    elif s == "split-id":
+                        d = pc.parse(sub)
+                        sub = tlv8.encode([(pc.T_IDENTIFIER, ident[:10]), (pc.T_IDENTIFIER, ident[10:]), (pc.T_PUBLIC_KEY, ltpk),
+                                           (pc.T_SIGNATURE, d[pc.T_SIGNATURE])])
                     idents.append(ident)
-                    if s == "noenc":
+                    sealed_identity = (ident, ltpk)
+                    if s == "outer-id":
+                        # somebody who has seen no key at all adds his own identity OUTSIDE the sealed data
+                        mitm = ed25519.Ed25519PrivateKey.from_private_bytes(hashlib.sha256(bytes.fromhex(op["ctrl_seed"])).digest())
+                        mitm_pk = mitm.public_key().public_bytes(serialization.Encoding.Raw, serialization.PublicFormat.Raw)
+                        mitm_id = ("%08X-0000-4000-8000-%012X" % (0xFEEDFACE, int(op["ctrl_seed"][:12], 16))).encode()
+                        idents.append(mitm_id)
+                        body = tlv8.encode([(pc.T_STATE, b"\x05"), (pc.T_IDENTIFIER, mitm_id), (pc.T_PUBLIC_KEY, mitm_pk),
+                                            (pc.T_SIGNATURE, mitm.sign(mitm_id + mitm_pk)),
+                                            (pc.T_ENCRYPTED, pc.seal(pc.m5_key(K), b"PS-Msg05", sub))])
+                    elif s == "noenc":
                         body = tlv8.encode([(pc.T_STATE, b"\x05")])
                     elif s == "short":
                         body = tlv8.encode([(pc.T_STATE, b"\x05"), (pc.T_ENCRYPTED, bytes.fromhex(op["rand"])[:9])])
@@ -594,6 +618,17 @@ def run_plan(plan: Dict[str, Any], env=None) -> Dict[str, Any]:
                     f"{kind} is accepted: the accessory's session key is one anybody can compute (S = 0) or guess, so the "
                     f"peer that gets paired has demonstrated nothing; pairings now: {len(r['paired'])}",
                 ])
+            if o["O3"] and sealed_identity is not None:
+                # pairing origin: what gets recorded is the identity SEALED in the M5 under the session key, nothing else
+                want = [hx(str(uuid_mod.UUID(sealed_identity[0].decode())).encode()), hx(sealed_identity[1]), 1] \
+                    if pe.uuid_canonical(sealed_identity[0]) else None
+                new = [e for e in r["paired"] if e not in r["paired_before"]]
+                if any(e != want for e in new):
+                    viol.append([
+                        "C01:recorded-pairing-is-not-the-identity-sealed-in-M5",
+                        f"{kind} records {new!r} but the M5 sealed under the session key carries {want!r}: a party that "
+                        f"never held the session key (hence not the code) is registered as a controller",
+                    ])
             # ---- ghost update
             t = _parse(r) or {}
             if t.get(pc.T_STATE) == b"\x02" and pc.T_ERROR not in t and pc.T_SALT in t and pc.T_PUBLIC_KEY in t:
